@@ -223,6 +223,55 @@ Theorem c06_weak_replay_check_refuted :
 Proof. exact weak_replay_refuted. Qed.
 Print Assumptions c06_weak_replay_check_refuted.
 
+(* ---------- L1 repaired: the handlers re-read the history when their receiver lagged ----------
+   rfinal pol cap n m sched: the stream model with the orders of the code (record-then-publish, subscribe-then-snapshot),
+   a channel of ANY capacity cap (an overflowing receiver loses its oldest pending frame and is told Lagged at its next
+   recv) and the policy pol of the handler's live half: LagSkip = carry on with what the channel still holds (the
+   handlers before the repair), LagRefill = server.rs live_frames: re-read the history, carry on after the last seq
+   delivered.  With LagRefill exactly-once needs NO NoLag hypothesis: every capacity, every length, every schedule. *)
+Theorem c06_exactly_once_with_refill : forall (cap n m : nat) (sched : list actor) (i : nat) (x : rsub),
+  nth_error (r_subs (rfinal LagRefill cap n m sched)) i = Some x -> rattached x = true ->
+  exists k, rdelivered LagRefill (rfinal LagRefill cap n m sched) x = seq 0 k
+            /\ rpublished n (rfinal LagRefill cap n m sched) <= k /\ k <= n
+            /\ (r_prog (rfinal LagRefill cap n m sched) = [] -> k = n).
+Proof. exact exactly_once_with_refill. Qed.
+Print Assumptions c06_exactly_once_with_refill.
+
+(* ... for the policies read from today's three handlers (gen_lag_policy; obligation: all LagRefill) *)
+Theorem c06_exactly_once_with_refill_code : forall (pol : lagpolicy), In pol gen_lag_policy ->
+  forall (cap n m : nat) (sched : list actor) (i : nat) (x : rsub),
+  nth_error (r_subs (rfinal pol cap n m sched)) i = Some x -> rattached x = true ->
+  exists k, rdelivered pol (rfinal pol cap n m sched) x = seq 0 k
+            /\ rpublished n (rfinal pol cap n m sched) <= k /\ k <= n
+            /\ (r_prog (rfinal pol cap n m sched) = [] -> k = n).
+Proof. exact (exactly_once_with_refill_policies gen_lag_policy gen_lag_policy_ok). Qed.
+Print Assumptions c06_exactly_once_with_refill_code.
+
+Theorem c06_code_handlers_all_refill : length gen_lag_policy = 3.
+Proof. exact gen_lag_policy_all. Qed.
+Print Assumptions c06_code_handlers_all_refill.
+
+(* L1 as it was: capacity 1, the subscriber attaches, two frames are produced before it reads: LagSkip delivers [1],
+   LagRefill [0; 1] *)
+Theorem c06_lag_skip_refuted :
+  r_prog (rfinal LagSkip 1 2 1 lag_sched) = []
+  /\ map rattached (r_subs (rfinal LagSkip 1 2 1 lag_sched)) = [true]
+  /\ map (rdelivered LagSkip (rfinal LagSkip 1 2 1 lag_sched)) (r_subs (rfinal LagSkip 1 2 1 lag_sched)) = [[1]]
+  /\ map (rdelivered LagRefill (rfinal LagRefill 1 2 1 lag_sched)) (r_subs (rfinal LagRefill 1 2 1 lag_sched)) = [[0; 1]].
+Proof. exact lag_skip_refuted. Qed.
+Print Assumptions c06_lag_skip_refuted.
+
+Example c06_refill_demo :
+  r_prog (rfinal LagRefill 2 6 3 refill_demo_sched) = []
+  /\ map rs_pend (r_subs (rfinal LagRefill 2 6 3 refill_demo_sched)) = [true; true; false]
+  /\ map rattached (r_subs (rfinal LagRefill 2 6 3 refill_demo_sched)) = [true; true; true]
+  /\ map (rdelivered LagRefill (rfinal LagRefill 2 6 3 refill_demo_sched)) (r_subs (rfinal LagRefill 2 6 3 refill_demo_sched))
+     = [[0; 1; 2; 3; 4; 5]; [0; 1; 2; 3; 4; 5]; [0; 1; 2; 3; 4; 5]]
+  /\ map (rdelivered LagSkip (rfinal LagSkip 2 6 3 refill_demo_sched)) (r_subs (rfinal LagSkip 2 6 3 refill_demo_sched))
+     = [[0; 1; 2; 3; 4; 5]; [0; 4; 5]; [0; 1; 2; 4; 5]].
+Proof. exact refill_demo. Qed.
+Print Assumptions c06_refill_demo.
+
 (* non-vacuity: three subscribers attaching at different moments of a 3-frame stream *)
 Example c06_demo :
   g_prog (final okc 3 3 demo_sched) = []
